@@ -679,6 +679,60 @@ func Check(r *Run, ex *vs.Exec) []Finding {
 		out = append(out, checkArgs(r, inst)...)
 		out = append(out, checkEmitters(r, inst, o, byID)...)
 	}
+	// C19 at the level of generated code (through the root package's adapter):
+	// every scheduler state report is consistent with itself and with the limit
+	{
+		lim := s.N
+		if lim == 0 {
+			lim = concOf(s.prog)
+		}
+		jobs := 0
+		withDeps := 0
+		if s.prog.Flow != nil {
+			for _, t := range s.prog.Flow.Tasks {
+				jobs++
+				if len(t.In) > 0 || t.Pred != nil {
+					withDeps++
+				}
+				if t.Pred != nil {
+					jobs++
+					if len(t.Pred.In) > 0 {
+						withDeps++
+					}
+				}
+			}
+		}
+		seenState := map[string]bool{}
+		for _, e := range r.Emits {
+			if e.Scope != "sched" || e.Em != 0 {
+				continue
+			}
+			st, ok := e.Arg.(cff.SchedulerState)
+			if !ok {
+				continue
+			}
+			key := stableArg(st)
+			if seenState[key] {
+				continue
+			}
+			seenState[key] = true
+			exec := st.Pending - st.Ready - st.Waiting
+			switch {
+			case st.Pending < 0 || st.Ready < 0 || st.Waiting < 0 || st.IdleWorkers < 0 || st.Concurrency < 0:
+				add("C19", "negative count in scheduler state report %s", key)
+			case exec < 0 || (lim > 0 && exec > lim):
+				add("C19", "scheduler state report %s: executing = Pending-Ready-Waiting = %d outside [0,%d]", key, exec, lim)
+			case lim > 0 && st.Concurrency != lim:
+				add("C19", "scheduler state report %s: Concurrency is not the configured limit %d", key, lim)
+			case st.IdleWorkers != st.Concurrency-exec:
+				add("C19", "scheduler state report %s: IdleWorkers != Concurrency - executing (%d)", key, st.Concurrency-exec)
+			case s.prog.Flow != nil && len(r.Outs) == 1 && st.Pending > jobs:
+				add("C19", "scheduler state report %s: Pending exceeds the %d jobs of the flow", key, jobs)
+			case s.prog.Flow != nil && len(r.Outs) == 1 && st.Waiting > withDeps:
+				add("C19", "scheduler state report %s: Waiting exceeds the %d jobs that have dependencies", key, withDeps)
+			}
+		}
+	}
 	// C03: bounded concurrency of user functions
 	limit := s.N
 	if limit == 0 {
